@@ -88,7 +88,7 @@ PROPS["C07"] = {
     "assumptions": ["well-formed definitions (Spec.Dev.WF); BLOB values carry a format string (devFormats/opFormats: extra hypotheses of C07_emitted_valid)"],
 }
 PROPS["C12"] = {
-    "suites": [("comp_dev", "gen_c12"), ("comp_router", "gen_c04")],
+    "suites": [("comp_dev", "gen_c12"), ("comp_router", "gen_c04"), ("comp_conn", "gen_hostile")],
     "rule": "driver level: the fault catalogue (unknown device/property/element, every vector kind mismatch incl. light targets, invalid switch/number/base64 text, wrong/missing/odd BLOB "
             "sizes, no children, duplicate children, valid+invalid+valid children, message kinds a client should not send) against one property of every kind, each fault between valid "
             "messages of a session, with and without handlers; plus random definitions with 70% hostile traffic; distinct by (device state, operation list)",
@@ -125,6 +125,24 @@ PROPS["C17"] = {
             "waits released by the same event; distinct by (kinds, configuration, batches, number of waits)",
     "trusted_base": ["tools/vloop.py: SelectorEventLoop subclass with a virtual clock; timers due at the same instant fire in creation order; event batches are call_at callbacks created before the waits"],
     "assumptions": ["asyncio's Event/task/timer semantics as recorded in DESIGN.md section 5 (L2g): modelled, tied by running the real coroutine on the virtual loop"],
+}
+PROPS["C19"] = {
+    "suites": [("comp_send", "gen_cases")],
+    "rule": "exhaustive: every schedule (sequence over {route next message, complete the oldest pending I/O of connection i}) up to length 6-8 with at most 4 routed messages, for one TCP "
+            "server connection, the TTY channel, the client connection, and pairs; random: bursts of 1-5 messages to 1-3 connections of mixed transports with one connection possibly "
+            "never completing; after each action the loop runs until idle; distinct by (connections, schedule)",
+    "exhaustive": True,
+    "trusted_base": ["fake StreamWriter (write appends, drain completes on command) and fake aiofiles stdout (a write takes effect when its job is released): tools/comp_send.py"],
+    "assumptions": ["asyncio task FIFO start order and Lock FIFO fairness (modelled, tied by running the real handlers); real sockets and the real thread pool are not exercised"],
+}
+PROPS["C18"] = {
+    "suites": [("comp_conn", "gen_cases")],
+    "rule": "session scripts of 2-3 concurrent connections on both server transports (TCP handler, TTY handler; handshake, enableBLOB, client writes, device traffic incl. BLOB updates) "
+            "x fault {EOF, read error, EOF inside a message, junk then EOF, exception in a device while the connection's message is handled} on every connection at every step index "
+            "(quick: half of the positions, sampled), followed by more device traffic and a reconnecting peer; write error on a peer; hostile client messages at several positions; "
+            "distinct by the router-operation rendering of the script",
+    "trusted_base": ["fake StreamReader/StreamWriter and fake aiofiles stdin/stdout (tools/comp_conn.py)"],
+    "assumptions": ["that every way of ending funnels into close()+unregister is handler control flow: tied by the correspondence, not proved; real sockets are not exercised"],
 }
 PROPS["CLITEST"] = {"suites": [("comp_cli", "gen_c15"), ("comp_cli", "gen_c16")], "rule": "cli bring-up"}
 PROPS["C12TEST"] = {"suites": [("comp_dev", "gen_c12")], "rule": "c12 bring-up"}
@@ -251,5 +269,34 @@ MANIFEST_TEXT = {
         "note": "C07_emitted_valid carries two extra hypotheses found by the proof attempt: stored and incoming BLOB values have a format string (values.BLOB(b, None) makes the driver emit a "
                 "oneBLOB its own parser rejects; recorded in DESIGN.md as usage outside the property). The XML character level is C03's subject. Trusted: kernel, translator, harness.",
         "technique": "Lean 4 theorems over the driver model and the regenerated class table + differential correspondence with re-parse by the real library",
+    },
+    "C17": {
+        "text": "Kernel-checked theorems (lean/Indi/Properties/C17.lean): C17 - for every configuration (timeout, polling delay/interval >= 1), every timed sequence of event batches (any "
+                "arrival instants, also coinciding with polling ticks or the timeout instant, several events per loop iteration) and every horizon, the operational model of waitforevent "
+                "(instant by instant: synchronous deliveries, polling/timeout task steps in timer-creation order, waiter) returns exactly what the declarative specification demands: the FIRST "
+                "matching event if it arrives no later than the timeout, else a timeout at the timeout instant, else pending; getProperties sent exactly at the polling instants before completion; "
+                "no callback left after completion. C17_event_is_genuine / C17_timeout_is_genuine (never both, never neither). Correspondence: the real coroutine on a virtual-clock event loop "
+                "on every grid instant, all condition and event kinds, concurrent waits.",
+        "note": "Partial: asyncio's Event/timer/task semantics are modelled (DESIGN.md section 5), tied by running the real coroutine on tools/vloop.py; independence of concurrent waits is "
+                "observed (each wait is compared with its own model run), not proved.",
+        "technique": "Lean 4 invariant over instants (operational model = declarative spec) + virtual-clock correspondence",
+    },
+    "C18": {
+        "text": "Kernel-checked theorems (lean/Indi/Properties/C18.lean) on the router model, for every history: after a connection's unregistration it is in neither clients nor blob_routing "
+                "(C18_forgotten), nothing routed afterwards is delivered to it (C18_no_delivery_after), every other connection keeps its registration, its policies and what it is served "
+                "(C18_others_stay, C18_others_policies, C18_others_served), a reconnecting peer starts from the default policy (C18_reconnect_default). That every way of ending (EOF, read error, "
+                "EOF inside a message, junk then EOF, exception while handling) funnels into close()+unregister is the handlers' control flow, tied by fault injection at every step of session "
+                "scripts on the real TCP and TTY handlers with fake streams; oracle: an ended connection is unregistered, closed, finished and silent at every later step.",
+        "note": "Partial: handler control flow and asyncio are not proved, only explored; real sockets are not exercised.",
+        "technique": "Lean 4 theorems on the router model (reusing the C05 refinement) + fault-injection correspondence on real handlers",
+    },
+    "C19": {
+        "text": "Kernel-checked theorem C19 (lean/Indi/Properties/C19.lean): for EVERY schedule - any interleaving of routing, task starts and I/O completions, including a connection that "
+                "never completes - output ++ pending = routed for the model of the lock-protected sender (TCP: write then drain; TTY: write job, flush job); hence the output is always a "
+                "prefix of the routed sequence (whole messages, in order, never interleaved: C19_prefix), everything once drained (C19_complete); routing never blocks (C19_route_never_blocks); "
+                "the lock hands over FIFO (C19_fifo_handover). Correspondence: exhaustive enumeration of short schedules and random longer ones on the real server TCP, TTY and client TCP "
+                "handlers with fake streams whose awaitables the explorer releases (oldest or newest pending).",
+        "note": "Partial: asyncio's task-start FIFO and Lock fairness are modelled (DESIGN.md section 5), tied by running the real handlers; the real thread pool and sockets are not exercised.",
+        "technique": "Lean 4 invariant over all schedules of a small transition system + exhaustive schedule exploration of the real handlers",
     },
 }
